@@ -14,10 +14,11 @@ func (s *src) text(n ast.Node) string {
 	return strings.Join(strings.Fields(b.String()), " ")
 }
 
+func init() { constGens["escape"] = genEscape }
+
 // genEscape reads escape.go: the leader byte, the base pairs and the
 // escape-all character string of getEscapeChars.
 func genEscape(s *src, o *out) {
-	o.raw("(* escape.go *)\n")
 	leader := s.evalInt(s.consts["escapeLeaderByte"], nil, 0)
 	o.defN("escape_leader", leader)
 
